@@ -1181,3 +1181,213 @@ Section DelMapper.
     - intros k Hk. rewrite <- (N j) by exact A. rewrite <- (N k) by (unfold P; nlia). apply C. exact Hk.
   Qed.
 End DelMapper.
+
+Local Open Scope Z_scope.
+(* ------------------------------------------------------------------ J. rectangular neighbours = 4-adjacency *)
+Lemma nth_upd_row_ne {A} (M : list A) i f a d : i <> a -> nth a (upd_row M i f) d = nth a M d.
+Proof.
+  revert i a; induction M as [|r M IH]; intros i a Hne.
+  - destruct i; reflexivity.
+  - destruct i as [|i], a as [|a]; cbn; auto; try congruence.
+Qed.
+Lemma in_rangeZ a b x : In x (rangeZ a b) <-> a <= x < b.
+Proof.
+  unfold rangeZ. rewrite in_map_iff. split.
+  - intros [i [<- Hi]]. apply in_seq in Hi. lia.
+  - intros H. exists (Z.to_nat (x - a)). split; [lia|]. apply in_seq. lia.
+Qed.
+
+Definition pad4 (l : list Z) : list Z := l ++ repeat (-1) (4 - length l).
+Definition final_row (H W t : Z) : list Z * Z := (pad4 (adj4 H W t), Z.of_nat (length (adj4 H W t))).
+Definition init_row : list Z * Z := ([-1; -1; -1; -1], 0).
+Definition consistent (H W : Z) (w : nb_write) : Prop := 0 <= fst w < H * W /\ snd w = adj4 H W (fst w).
+
+Lemma adj4_rc H W r c : 0 <= c < W ->
+  adj4 H W (r * W + c) =
+  (if 0 <? r then [r * W + c - W] else []) ++ (if 0 <? c then [r * W + c - 1] else [])
+  ++ (if c <? W - 1 then [r * W + c + 1] else []) ++ (if r <? H - 1 then [r * W + c + W] else []).
+Proof.
+  intros Hc. unfold adj4.
+  assert (E1 : (r * W + c) / W = r) by (symmetry; apply (Z.div_unique_pos _ _ _ c); lia).
+  assert (E2 : (r * W + c) mod W = c) by (symmetry; apply (Z.mod_unique_pos _ _ r c); lia).
+  rewrite E1, E2. reflexivity.
+Qed.
+Lemma adj4_length_le H W t : (length (adj4 H W t) <= 4)%nat.
+Proof. unfold adj4. destruct (0 <? t / W), (0 <? t mod W), (t mod W <? W - 1), (t / W <? H - 1); cbn; lia. Qed.
+Lemma skipn_pad (l : list Z) : (length l <= 4)%nat -> skipn (length l) [-1; -1; -1; -1] = repeat (-1) (4 - length l).
+Proof. intros H. destruct l as [|a [|b [|c [|d [|e l]]]]]; cbn in *; try reflexivity; lia. Qed.
+Lemma skipn_pad4 (l : list Z) : skipn (length l) (pad4 l) = repeat (-1) (4 - length l).
+Proof. unfold pad4. rewrite skipn_app, skipn_all, Nat.sub_diag. reflexivity. Qed.
+
+Section Nb.
+  Variables H W : Z.
+  Hypothesis HH : 2 <= H.
+  Hypothesis HW : 2 <= W.
+
+  Ltac adj_at r c := match goal with |- ?l = adj4 ?H ?W ?i =>
+     transitivity (adj4 H W (r * W + c)); [rewrite adj4_rc by lia | f_equal; ring] end.
+  Ltac fin := repeat match goal with |- context [Z.ltb ?a ?b] => destruct (Z.ltb_spec a b); try lia end;
+              cbn [app]; repeat (f_equal; try nia).
+  Lemma writes_consistent : Forall (consistent H W) (all_writes H W).
+  Proof.
+    unfold all_writes. rewrite !Forall_app. repeat split.
+    - (* corners *)
+      unfold corner_writes. repeat constructor; cbn [fst snd]; try nia.
+      + adj_at 0 0. fin.
+      + adj_at 0 (W - 1). fin.
+      + adj_at (H - 1) 0. fin.
+      + adj_at (H - 1) (W - 1). fin.
+    - (* top edge *)
+      unfold top_writes. apply Forall_forall. intros w Hw. apply in_map_iff in Hw. destruct Hw as [pix [<- Hp]].
+      apply in_rangeZ in Hp. split; cbn [fst snd]; [nia|]. adj_at 0 pix. fin.
+    - (* left edge *)
+      unfold left_writes. apply Forall_forall. intros w Hw. apply in_map_iff in Hw. destruct Hw as [pix [<- Hp]].
+      apply in_rangeZ in Hp. split; cbn [fst snd]; [nia|]. adj_at pix 0. fin.
+    - (* right edge *)
+      unfold right_writes. apply Forall_forall. intros w Hw. apply in_map_iff in Hw. destruct Hw as [pix [<- Hp]].
+      apply in_rangeZ in Hp. split; cbn [fst snd]; [nia|]. adj_at pix (W - 1). fin.
+    - (* bottom edge *)
+      unfold bottom_writes. apply Forall_forall. intros w Hw. apply in_map_iff in Hw. destruct Hw as [pix [<- Hp]].
+      apply in_rangeZ in Hp. split; cbn [fst snd]; [nia|]. adj_at (H - 1) (W - 1 - pix). fin.
+    - (* centre *)
+      unfold central_writes. apply Forall_forall. intros w Hw. apply in_flat_map in Hw. destruct Hw as [x [Hx Hw]].
+      apply in_map_iff in Hw. destruct Hw as [y [<- Hy]]. apply in_rangeZ in Hx, Hy. split; cbn [fst snd]; [nia|].
+      adj_at x y. fin.
+  Qed.
+
+  Lemma writes_cover t : 0 <= t < H * W -> exists w, In w (all_writes H W) /\ fst w = t.
+  Proof.
+    intros Ht. set (r := t / W). set (c := t mod W).
+    assert (Et : t = r * W + c) by (unfold r, c; rewrite Z.mul_comm; apply Z.div_mod; lia).
+    assert (Hc : 0 <= c < W) by (unfold c; apply Z.mod_pos_bound; lia).
+    assert (Hr : 0 <= r < H) by (split; [unfold r; apply Z.div_pos; lia | apply Z.div_lt_upper_bound; nia]).
+    unfold all_writes.
+    destruct (Z.eq_dec r 0) as [R0|R0]; [|destruct (Z.eq_dec r (H - 1)) as [R1|R1]];
+      (destruct (Z.eq_dec c 0) as [C0|C0]; [|destruct (Z.eq_dec c (W - 1)) as [C1|C1]]).
+    - exists (0, [1; W]). split; [|cbn; nia]. apply in_or_app. left. cbn. auto.
+    - exists (W - 1, [W - 2; W + W - 1]). split; [|cbn; nia]. apply in_or_app. left. cbn. auto.
+    - eexists. split; [|shelve]. apply in_or_app. right. apply in_or_app. left.
+      unfold top_writes. apply in_map_iff. exists c. split; [reflexivity|]. apply in_rangeZ. lia.
+      Unshelve. cbn. nia.
+    - exists (H * W - W, [H * W - W * 2; H * W - W + 1]). split; [|cbn; nia]. apply in_or_app. left. cbn. auto.
+    - exists (H * W - 1, [H * W - W - 1; H * W - 2]). split; [|cbn; nia]. apply in_or_app. left. cbn. auto.
+    - eexists. split; [|shelve]. do 4 (apply in_or_app; right). apply in_or_app. left.
+      unfold bottom_writes. apply in_map_iff. exists (W - 1 - c). split; [reflexivity|]. apply in_rangeZ. lia.
+      Unshelve. cbn. nia.
+    - eexists. split; [|shelve]. do 2 (apply in_or_app; right). apply in_or_app. left.
+      unfold left_writes. apply in_map_iff. exists r. split; [reflexivity|]. apply in_rangeZ. lia.
+      Unshelve. cbn. nia.
+    - eexists. split; [|shelve]. do 3 (apply in_or_app; right). apply in_or_app. left.
+      unfold right_writes. apply in_map_iff. exists r. split; [reflexivity|]. apply in_rangeZ. lia.
+      Unshelve. cbn. nia.
+    - eexists. split; [|shelve]. do 5 (apply in_or_app; right).
+      unfold central_writes. apply in_flat_map. exists r. split; [apply in_rangeZ; lia|].
+      apply in_map_iff. exists c. split; [reflexivity|]. apply in_rangeZ. lia.
+      Unshelve. cbn. nia.
+  Qed.
+
+  (* a row is either untouched or already final *)
+  Definition good (t : nat) (row : list Z * Z) : Prop := row = init_row \/ row = final_row H W (Z.of_nat t).
+
+  Lemma apply_write_at st w t : consistent H W w -> (t < length st)%nat -> good t (nth t st init_row) ->
+    nth t (apply_write st w) init_row = if Nat.eqb (Z.to_nat (fst w)) t then final_row H W (Z.of_nat t) else nth t st init_row.
+  Proof.
+    intros [Hr Hv] Ht Hg. unfold apply_write. destruct (Nat.eqb_spec (Z.to_nat (fst w)) t) as [E|E].
+    - rewrite nth_upd_row by lia. rewrite E, Nat.eqb_refl.
+      assert (Ez : Z.of_nat t = fst w) by lia. unfold final_row. rewrite Ez, <- Hv. f_equal. unfold pad4. f_equal.
+      rewrite Hv. destruct Hg as [->| ->].
+      + cbn [fst init_row]. apply skipn_pad, adj4_length_le.
+      + unfold final_row. cbn [fst]. rewrite Ez. apply skipn_pad4.
+    - apply nth_upd_row_ne. exact E.
+  Qed.
+  Lemma apply_write_length st w : length (apply_write st w) = length st.
+  Proof. unfold apply_write. apply upd_row_length. Qed.
+
+  Lemma fold_good ws : forall st, Forall (consistent H W) ws ->
+    (forall t, (t < length st)%nat -> good t (nth t st init_row)) ->
+    length (fold_left apply_write ws st) = length st /\
+    forall t, (t < length st)%nat ->
+      good t (nth t (fold_left apply_write ws st) init_row) /\
+      (nth t st init_row = final_row H W (Z.of_nat t) \/ (exists w, In w ws /\ Z.to_nat (fst w) = t) ->
+       nth t (fold_left apply_write ws st) init_row = final_row H W (Z.of_nat t)).
+  Proof.
+    induction ws as [|w ws IH]; intros st HF Hg; cbn [fold_left].
+    - split; auto. intros t Ht. split; auto. intros [E|[w [[] _]]]. exact E.
+    - inversion HF as [|? ? Hw HF']; subst.
+      assert (Hg' : forall t, (t < length (apply_write st w))%nat -> good t (nth t (apply_write st w) init_row)).
+      { intros t Ht. rewrite apply_write_length in Ht. rewrite apply_write_at by auto.
+        destruct (Nat.eqb _ t); [right; reflexivity | auto]. }
+      destruct (IH (apply_write st w) HF' Hg') as [L G]. rewrite apply_write_length in L. split; [exact L|].
+      intros t Ht. destruct (G t ltac:(rewrite apply_write_length; exact Ht)) as [G1 G2]. split; [exact G1|].
+      intros Hcase. apply G2. rewrite apply_write_at by auto.
+      destruct (Nat.eqb_spec (Z.to_nat (fst w)) t) as [E|E]; [left; reflexivity|].
+      destruct Hcase as [E'|[w' [[<-|Hin] Ew']]]; [left; exact E' | contradiction | right; exists w'; auto].
+  Qed.
+
+  (* every row of the neighbour array is the 4-adjacency list (increasing index order) padded with -1, with its size *)
+  Theorem rect_neighbors_adj4 t : 0 <= t < H * W ->
+    length (rect_neighbors H W) = Z.to_nat (H * W) /\
+    nth (Z.to_nat t) (rect_neighbors H W) init_row = final_row H W t.
+  Proof.
+    intros Ht. unfold rect_neighbors.
+    destruct (fold_good (all_writes H W) (repeat init_row (Z.to_nat (H * W))) writes_consistent) as [L G].
+    { intros t' Ht'. left. apply nth_repeat_any. }
+    rewrite repeat_length in L, G. split; [exact L|].
+    destruct (G (Z.to_nat t) ltac:(lia)) as [_ G2]. rewrite Z2Nat.id in G2 by lia. apply G2.
+    right. destruct (writes_cover t Ht) as [w [Hin Ew]]. exists w. split; [exact Hin | rewrite Ew; reflexivity].
+  Qed.
+End Nb.
+
+Lemma rc_inj W a b a' b' : 0 <= b < W -> 0 <= b' < W -> a * W + b = a' * W + b' -> a = a' /\ b = b'.
+Proof.
+  intros Hb Hb' E.
+  assert (E1 : (a * W + b) / W = a) by (symmetry; apply (Z.div_unique_pos _ _ _ b); lia).
+  assert (E2 : (a' * W + b') / W = a') by (symmetry; apply (Z.div_unique_pos _ _ _ b'); lia).
+  rewrite E in E1. assert (a = a') by congruence. subst a'. split; [reflexivity | lia].
+Qed.
+
+(* 4-adjacency is symmetric *)
+Theorem adj4_symmetric H W t q : 0 < W -> 0 <= t < H * W -> 0 <= q < H * W -> In q (adj4 H W t) -> In t (adj4 H W q).
+Proof.
+  intros HW Ht Hq.
+  assert (D : forall x, 0 <= x < H * W -> x = (x / W) * W + x mod W /\ 0 <= x mod W < W /\ 0 <= x / W < H).
+  { intros x Hx. split; [rewrite Z.mul_comm; apply Z.div_mod; lia|]. split; [apply Z.mod_pos_bound; lia|].
+    split; [apply Z.div_pos; lia | apply Z.div_lt_upper_bound; nia]. }
+  destruct (D t Ht) as [Et [Hc Hr]]. destruct (D q Hq) as [Eq [Hc' Hr']].
+  set (r := t / W) in *. set (c := t mod W) in *. set (r' := q / W) in *. set (c' := q mod W) in *.
+  rewrite Et, Eq. rewrite !adj4_rc by lia. rewrite !in_app_iff.
+  pose proof (rc_inj W) as INJ.
+  intros [Hi|[Hi|[Hi|Hi]]].
+  - destruct (Z.ltb_spec 0 r); [|destruct Hi]. destruct Hi as [Hi|[]].
+    destruct (INJ (r - 1) c r' c') as [E1 E2]; try lia. rewrite <- E1, <- E2.
+    do 3 right. destruct (Z.ltb_spec (r - 1) (H - 1)); [|lia]. left. ring.
+  - destruct (Z.ltb_spec 0 c); [|destruct Hi]. destruct Hi as [Hi|[]].
+    destruct (INJ r (c - 1) r' c') as [E1 E2]; try lia. rewrite <- E1, <- E2.
+    do 2 right. left. destruct (Z.ltb_spec (c - 1) (W - 1)); [|lia]. left. ring.
+  - destruct (Z.ltb_spec c (W - 1)); [|destruct Hi]. destruct Hi as [Hi|[]].
+    destruct (INJ r (c + 1) r' c') as [E1 E2]; try lia. rewrite <- E1, <- E2.
+    right. left. destruct (Z.ltb_spec 0 (c + 1)); [|lia]. left. ring.
+  - destruct (Z.ltb_spec r (H - 1)); [|destruct Hi]. destruct Hi as [Hi|[]].
+    destruct (INJ (r + 1) c r' c') as [E1 E2]; try lia. rewrite <- E1, <- E2.
+    left. destruct (Z.ltb_spec 0 (r + 1)); [|lia]. left. ring.
+Qed.
+(* ... and is exactly "differs by one step along one axis" *)
+Theorem adj4_geometric H W r c r' c' : 0 <= c < W -> 0 <= c' < W -> 0 <= r < H -> 0 <= r' < H ->
+  (In (r' * W + c') (adj4 H W (r * W + c)) <-> Z.abs (r - r') + Z.abs (c - c') = 1).
+Proof.
+  intros Hc Hc' Hr Hr'. rewrite adj4_rc by lia. rewrite !in_app_iff.
+  pose proof (rc_inj W) as INJ.
+  split.
+  - intros [Hi|[Hi|[Hi|Hi]]].
+    + destruct (Z.ltb_spec 0 r); [|destruct Hi]. destruct Hi as [Hi|[]]. destruct (INJ (r - 1) c r' c'); lia.
+    + destruct (Z.ltb_spec 0 c); [|destruct Hi]. destruct Hi as [Hi|[]]. destruct (INJ r (c - 1) r' c'); lia.
+    + destruct (Z.ltb_spec c (W - 1)); [|destruct Hi]. destruct Hi as [Hi|[]]. destruct (INJ r (c + 1) r' c'); lia.
+    + destruct (Z.ltb_spec r (H - 1)); [|destruct Hi]. destruct Hi as [Hi|[]]. destruct (INJ (r + 1) c r' c'); lia.
+  - intros Habs.
+    assert (Cases : (r' = r - 1 /\ c' = c) \/ (r' = r /\ c' = c - 1) \/ (r' = r /\ c' = c + 1) \/ (r' = r + 1 /\ c' = c)) by lia.
+    destruct Cases as [[-> ->]|[[-> ->]|[[-> ->]|[-> ->]]]].
+    + left. destruct (Z.ltb_spec 0 r); [|lia]. left. ring.
+    + right. left. destruct (Z.ltb_spec 0 c); [|lia]. left. ring.
+    + do 2 right. left. destruct (Z.ltb_spec c (W - 1)); [|lia]. left. ring.
+    + do 3 right. destruct (Z.ltb_spec r (H - 1)); [|lia]. left. ring.
+Qed.
